@@ -26,8 +26,8 @@ from harness.tlsrun import suites
 INV = ["DeliveredIsOwn", "OwnSequence", "OneSessionPerConn"]
 
 # concrete connection sets mirroring demux_cfg.SETS (host numbers, ports, CIDs as hex)
-def T(c, s, ipv=4):
-    return dict(proto="tls", c=c, s=s, ipv=ipv)
+def T(c, s, ipv=4, resume_of=None):
+    return dict(proto="tls", c=c, s=s, ipv=ipv, resume_of=resume_of)
 
 
 def QC(c, s, odcid, ccid, scid, c2=None, ncid=False, ipv=4):
@@ -45,6 +45,8 @@ CONCRETE = {
     "three quic: empty, one-byte and two-byte cids": [QC((1, 40000), (2, 443), "0701070707070707", "", "09"), QC((1, 40001), (2, 443), "0702070707070707", "09", ""),
                                                       QC((4, 40000), (2, 443), "0703070707070707", "0909", "0909")],
     "quic whose new cid extends its old cid (prefix within one side)": [QC((1, 40000), (2, 443), "0701070707070707", "0101", "0505", ncid="extend"), QC((1, 40001), (2, 443), "0702070707070707", "02", "05")],
+    # session resumption: the second and third connection reuse the first one's master secret (abbreviated handshakes, fresh randoms)
+    "tls session resumed twice": [dict(T((1, 40000), (2, 443)), resumable=True), T((1, 40001), (2, 443), resume_of=0), T((1, 40002), (2, 443), resume_of=0)],
     # beyond the model's sets: more connections, mixed IP versions
     "mixed: 2 tls (v4/v6 same host numbers) + 2 quic": [T((1, 40000), (2, 443)), T((1, 40000), (2, 443), ipv=6),
                                                         QC((1, 40000), (2, 443), "0a01070707070707", "aa01", "bb01", ipv=6), QC((1, 40002), (2, 443), "0a02070707070707", "aa02", "bb02")],
@@ -67,7 +69,15 @@ def build_one(cd, idx, seed):
     fl = Flow(ep(*cd["c"], ipv, False), ep(*cd["s"], ipv, True))
     if cd["proto"] == "tls":
         ver, suite = TLS_KINDS[(idx + seed) % len(TLS_KINDS)]
-        c = TlsConn(ver, suites()[suite], seed=seed)
+        shape = {}
+        if cd.get("resume_of") is not None or cd.get("resumable"):
+            base_seed = seed - idx + (cd["resume_of"] if cd.get("resume_of") is not None else idx)
+            ver, suite = [(R.TLS12, 0xC02F), (R.TLS12, 0x003C), (R.TLS10, 0x002F), (R.TLS12, 0xCCA8)][base_seed % 4]
+            import random as _r
+            shape = dict(ms_hex=bytes(_r.Random(base_seed * 7919).getrandbits(8) for _ in range(48)).hex())
+            if cd.get("resume_of") is not None:
+                shape["abbreviated"] = True
+        c = TlsConn(ver, suites()[suite], seed=seed, **shape)
         for d, n in [("c", 40 + idx), ("s", 300 + idx), ("c", 10), ("s", 1000 + idx)]:
             c.app(d, n)
         cap = tcp_capture([c], [fl], isns=[(1000 + 97 * idx + seed % 1000, 7000 + 31 * idx)])
